@@ -79,6 +79,13 @@ def oracle_verdict(o):
     if o is None:
         return None
     bad = o.get("oracle") == "BAD" or o.get("oracle2") == "BAD"
+    if o.get("kind") == "K":
+        if o.get("durable") == "BAD":
+            return ("process-kill image taken when a Save/SaveSnapshot returned: reopening does not return every entry of the "
+                    "completed saves and the Term/Vote of the last completed hard state (the call returned without making it durable)")
+        if o.get("prefix") == "BAD":
+            return "process-kill image does not contain the durable state of the writer model (a sync the model performs did not happen)"
+        return None
     if o.get("kind") == "Z":
         if o.get("nocoin") == "0":
             return "coincidence" if (bad or o.get("shape") == "BAD") else None
@@ -98,7 +105,7 @@ def oracle_verdict(o):
 
 # ----------------------------------------------------------------------------- case files
 
-CASE_TAGS = ("READ", "M", "Z")
+CASE_TAGS = ("READ", "M", "Z", "K")
 
 
 def split_blocks(text):
@@ -281,6 +288,8 @@ def symbolic(block, case):
             if d["nops"] != len(block.ops):
                 return None
             return "MUT READ %s %s" % (fs[3], fs[4])
+        if fs[0] == "K":
+            return "MUT K %d" % block.real_index_after(int(fs[5]))
         if fs[0] == "M":
             d = block.dirs[fs[2]]
             if d["nops"] != len(block.ops):
@@ -364,7 +373,13 @@ def renumber(ops):
 def retarget(mut, removed):
     """Adjust the operation indexes of a MUT line after removing real operation `removed`."""
     fs = mut.split()
-    if fs[1] == "M":
+    if fs[1] == "K":
+        op = int(fs[2])
+        if op == removed:
+            return None
+        if op > removed:
+            fs[2] = str(op - 1)
+    elif fs[1] == "M":
         op = int(fs[2])
         if op == removed:
             return None
@@ -789,7 +804,9 @@ def run(ctx):
                 if "repair=1" in v:
                     outcome += "+repaired"
                 hist["%s/%s/%s" % (kind, o.get("part", "-"), outcome)] += 1
-                if kind == "READ" or "err:" in v or (kind == "Z" and "repair" in v):
+                if kind == "K":
+                    stats["kill_images"] += 1
+                if kind in ("READ", "K") or "err:" in v or (kind == "Z" and "repair" in v):
                     stats["nontrivial"] += 1
                 ov = oracle_verdict(o)
                 if ov == "known":
@@ -866,7 +883,7 @@ def run(ctx):
         rule=("cases are distinct by construction (a directory written by the real WAL code x one crash image / one (offset,value) / one start snapshot); "
               "a WAL case counts as non-trivial when it is a pristine read-back or the mutilation is observable (error, repair); a snapshot case when Load had to fall back. "
               "quick: ~300 scripts of 1-7 Save/SaveSnapshot operations (segment sizes 512..4096, so cuts occur) + 2 long logs; crash images = every subset of the unsynced sectors up to 4 (thorough: 6) sectors, sampled above; "
-              "corruptions = header sweep (length field, tags, type, crc, data length) + sampled data bytes per record (thorough: every offset x 255 values on the smallest logs); snapshot directories: every offset of the newest file x 3 values (thorough: 7)"),
+              "a process-kill image (files copied while the WAL is open) after every operation of the short scripts, checked with completed_ok/kill_prefix_ok; corruptions = header sweep (length field, tags, type, crc, data length) + sampled data bytes per record (thorough: every offset x 255 values on the smallest logs); snapshot directories: every offset of the newest file x 3 values (thorough: 7)"),
         samples=samples or ["(none)"],
         stats=dict(stats), seconds={k: round(v, 1) for k, v in TIMES.items()}, outcome_histogram=dict(sorted(hist.items())),
         exhaustive=False,
